@@ -5,6 +5,7 @@ stiffener contributions are symmetric positive semi-definite (observation).
 Specification: spec/mech/Assembly.tla (placement algebra over PanelOps / ConnectionOps / PanelFieldOps / PanelNL),
 bounded model spec/mc/MC_Assembly.tla, trace specification spec/trace/Trace_Assembly.tla (the verdicts are TLC's)."""
 import contextlib
+import gc
 import io
 import json
 import os
@@ -19,7 +20,7 @@ import panelmat
 from panelmat import fr
 
 TOL, TOL_NL, TOL_PLACE, TOL_PSD = 38, 34, 40, 30
-OWN = ["KF_C13_AssemblyWithoutConnectionsRaises", "KF_C13_Blade2DWithoutFlangeRaises"]
+OWN = ["KF_C13_AssemblyWithoutConnectionsRaises", "KF_C13_Blade2DWithoutFlangeRaises", "KF_C13_Blade1DMassCouplingDoubled"]
 INHERITED = {"KF_C04_OffsetCouplingSign": "C04", "KF_C20_Assembly_calc_fint_sum": "C20",
              "KF_C20_Panel_calc_kM_model": "C20"}
 INVS = ["RangesPartition", "RangesOrdered", "SizeIsSum", "PlacementsInside", "PlaceAgrees", "GlobalSymmetric",
@@ -263,13 +264,13 @@ def observe_place(bd, q):
         K = dense(quiet(bay_call, b, q))
         size = int(b.get_size())
     except (AttributeError, KeyError) as ex:
-        return dict(q=q, raised=type(ex).__name__, msg=str(ex)[:120]), []
+        return dict(q=q, raised=type(ex).__name__, msg=str(ex)[:120]), [], []
     from compmech.sparse import finalize_symmetric_matrix
     twin, stiffs = build_bay(bd, tile_loads=loads, stiff_loads=True)
     quiet(twin.calc_k0, silent=True)
     n0 = n0_of(bd)
     meth = {"k0": "calc_k0", "kG0": "calc_kG0", "kM": "calc_kM"}[q]
-    comps, psd = [], []
+    comps, psd, beams = [], [], []
     for p in twin.panels:
         if q == "kM":
             p.calc_k0(size=n0, row0=0, col0=0, silent=True)
@@ -288,7 +289,10 @@ def observe_place(bd, q):
             sym = bool(np.array_equal(A, A.T))
             ev = np.linalg.eigvalsh((A + A.T) / 2.0)
             psd.append(dict(stiff=i + 1, kind=sd["kind"], q=q, sym=sym, lmin=dyadic(ev[0]), norm=dyadic(max(abs(ev[0]), abs(ev[-1])))))
-    return dict(q=q, size=size, comps=[enc_mat(A) for A in comps], obs=enc_mat(K)), psd
+        if q == "kM" and sd["kind"] == "b1d" and sd["flange"] and not sd["base"]:
+            w, V = np.linalg.eigh((A + A.T) / 2.0)       # the one derived stiffener internal; eigenvector as witness
+            beams.append(dict(req=dict(q="b1dmass", k=i + 1), obs=enc_mat(A), wit=[dyadic(x) for x in V[:, 0]]))
+    return dict(q=q, size=size, comps=[enc_mat(A) for A in comps], obs=enc_mat(K)), psd, beams
 
 
 def observe_bay_fext(bd, r):
@@ -381,6 +385,8 @@ def run(tier, seed, build):
         for q in (["size"] + rng.sample(["k0", "kG0", "kM"], 1 if tier == "quick" else 3)):
             pairs.append((bd, dict(q=q, N=[rat(Fraction(rng.randint(-12, 12), 4)) for _ in range(3)]) if q == "kG0" else dict(q=q)))
     events, meta = [], {}
+    gc.collect()
+    gc.freeze()          # the package calls gc.collect() in every method: keep the parsed lattice out of its way
 
     def emit(ev, d, body, label):
         e = dict(ev=ev, id=len(events), d=d)
@@ -401,10 +407,12 @@ def run(tier, seed, build):
                 emit("bay", d, observe_bay_size(d, r), "StiffPanelBay.get_size")
             elif r["q"] == "place":
                 for q in ("k0", "kG0", "kM"):
-                    body, psd = observe_place(d, q)
+                    body, psd, beams = observe_place(d, q)
                     emit("place", d, body, "StiffPanelBay.calc_%s vs placed components" % q)
+                    for bm in beams:
+                        emit("bay", d, bm, "BladeStiff1D.calc_kM (flange as a beam)")
                     for o in psd:
-                        e = dict(ev="psd", id=len(events), sym=o["sym"], lmin=o["lmin"], norm=o["norm"])
+                        e = dict(ev="psd", id=len(events), sym=o["sym"], lmin=o["lmin"], norm=o["norm"], kind=o["kind"], q=o["q"])
                         meta[e["id"]] = (d, dict(q="psd " + o["q"], stiffener=o["stiff"], kind=o["kind"]), "stiffener contribution")
                         events.append(e)
         except Exception as ex:
